@@ -16,7 +16,7 @@ def pick(rnd, i):
 
 CHECK = ComponentCheck("C20", pick, tiers={"quick": (36, 300), "thorough": (600, 1000)})
 shards, run_shard = CHECK.shards, CHECK.run_shard
-RULE = ("histories = hostile random acquire/release/clear sequences for max_count in {1,2,3,5,8,13}; the count register is compared with the model "
+RULE = ("[in 30% of the histories every provided exclusive method has a second, competing caller transaction: a request is issued by the main caller, the rival or both; condition exclusive_method_serves_at_most_one_caller_per_cycle] histories = hostile random acquire/release/clear sequences for max_count in {1,2,3,5,8,13}; the count register is compared with the model "
         "every cycle; non-trivial distinct case = (max_count, count, set of executed methods) - a finite space reported with distinct_states")
 ASSUMPTIONS = ["pysim execution"]
 MINIMA = {"quick": {"cycles": 5000, "calls:acquire": 800, "calls:release": 800, "calls:clear": 30, "distinct": 40}, "thorough": {"cycles": 200000, "distinct": 100}}
